@@ -267,12 +267,16 @@ func renderGradle(m Manifest) string {
 		b.WriteString(gradleBlock(l, s))
 		b.WriteString(l.nl)
 	}
-	b.WriteString("dependencies {" + l.nl)
-	for _, e := range m.Entries {
-		b.WriteString(gradleEntry(l, e))
-		b.WriteString(l.blank())
+	if m.NoBlock && len(m.Entries) == 0 {
+		b.WriteString("plugins {" + l.nl + "    id 'java'" + l.nl + "}" + l.nl)
+	} else {
+		b.WriteString("dependencies {" + l.nl)
+		for _, e := range m.Entries {
+			b.WriteString(gradleEntry(l, e))
+			b.WriteString(l.blank())
+		}
+		b.WriteString("}" + l.nl)
 	}
-	b.WriteString("}" + l.nl)
 	for _, s := range m.After {
 		b.WriteString(l.nl)
 		b.WriteString(gradleBlock(l, s))
